@@ -375,7 +375,11 @@ Definition all_tables (sh : shell) (c : cdfa) (ord_main : list (string * string)
       let ord := match assocN (fst pi) ord_subs with Some o => o | None => [] end in
       do t <- get_lookup_tables sd cmds start (n_sub_cmd nd) (compadd_switch sh (n_sub_compadd nd)) (n_sub_star nd) ord;
       Ok (fst pi, snd pi, t)) ids;
-  Ok (nd, mkall cmds states main subtrans csub subs).
+  (* bash.rs accepting_from_id: the accepting states of each within-word automaton, + ARRAY_START *)
+  do subacc <- omap (fun pi =>
+      do sd <- lookup_sub c (fst pi);
+      Ok (snd pi, map (fun s => s + start) (d_accepting sd))) ids;
+  Ok (nd, mkall cmds states main subtrans csub subs subacc).
 
 (** every literal order used is valid *)
 Definition valid_orders (c : cdfa) (ord_main : list (string * string))
